@@ -21,6 +21,19 @@ mod prefix_string;
 #[cfg(test)]
 mod tests;
 
+/// Re-exports of private codecs for verification harnesses.
+#[cfg(feature = "verif-hooks")]
+#[allow(unused_imports)]
+pub mod verif {
+    pub use super::prefix_int::{
+        decode as prefix_int_decode, encode as prefix_int_encode, Error as PrefixIntError,
+    };
+    pub use super::prefix_string::{
+        decode as prefix_string_decode, encode as prefix_string_encode,
+        Error as PrefixStringError,
+    };
+}
+
 #[derive(Debug)]
 pub enum Error {
     Encoder(EncoderError),
